@@ -10,7 +10,7 @@ TABLE = {
     'C01': ('exploration',
             'Hypothesis-generated rounds vs float64/numpy closed-form and op-by-op optax reference; permutation/backend/decomposition metamorphic relations',
             'No counterexample among generated (population, optimizer, batching hparams, backend, rounds) cases against an independent reference implementation of the mathematical definition. Exploration is the right level: the claim is numerical agreement over an unbounded configuration space.',
-            'Trusts numpy float64 arithmetic, raw optax transformations, jax.grad; the batch stream itself is decided by C04.'),
+            'Trusts numpy float64 arithmetic, raw optax transformations, jax.grad; the batch stream itself is decided by C04. The key-dependent-loss clause follows the per-step key schedule of the documented FedAvg client loop (algorithms tutorial).'),
     'C02': ('exploration',
             'Hypothesis-generated client programs and populations vs the eager sequential fold; buffer-liveness oracle; generated thread interleavings vs per-thread stack model',
             'No counterexample among generated programs x client collections x backends (jit, debug, pmap over 1..8 virtual CPU devices) against the definition executed eagerly, plus harness-owned interleavings of backend selection.',
@@ -36,36 +36,36 @@ TABLE = {
             'No counterexample among generated trees, weights, orders and iterator kinds for tree_sum/tree_mean/mean_aggregator/clip.',
             'Subnormals excluded (XLA:CPU flushes them).'),
     'C08': ('exploration',
-            'Model-based generated histories of view operations run in lock-step over 4 implementations and a pure-Python model',
+            'Model-based generated histories of view operations run in lock-step over 4 implementations and a pure-Python model; exhaustive slice-range sub-grid; child interpreters with other PYTHONHASHSEED values for the iteration-order clause',
             'No divergence between in-memory, SQLite, subset-wrapped datasets and a dict model along generated histories of slice/subset/preprocess operations, observed through every access path.',
             'Client preprocessors are row-preserving (documented per-example contract).'),
     'C09': ('fault_enumeration',
             'Exhaustive single-crash enumeration over the file-system/round effect stream + Hypothesis multi-crash schedules; differential oracle vs uninterrupted run',
             'For each generated configuration every single crash point (x partial-write prefixes) is enumerated and the resumed run compared bit-exactly with an uninterrupted run; multi-crash schedules are sampled.',
-            'Crash = exception at the effect + arbitrary prefix on disk; tf.summary stubbed (TensorBoard not installed).'),
+            'Crash = exception at the effect + arbitrary prefix on disk, plus real os._exit deaths in child processes (no flush, other hash seed); tf.summary stubbed (TensorBoard not installed).'),
     'C10': ('exploration',
-            'Model-based generated multi-round histories with branch/pickle round trips; duplicate-call bit-equality and argument-snapshot oracles',
+            'Model-based generated multi-round histories with branch/pickle round trips; duplicate-call bit-equality, argument-snapshot, second-instance and restart-in-a-new-process oracles',
             'No counterexample along generated histories for the 7 algorithms and the compression aggregators.',
             'Batching seeds fixed (seed=None draws OS entropy by design).'),
     'C11': ('exploration',
             'Hypothesis-generated vectors/levels/keys vs float64 grid membership, identity classes, statistical unbiasedness test with stated error rate, bit formula',
             'No counterexample among generated vectors and aggregator histories; unbiasedness decided by a z-test over thousands of keys with false-alarm probability < 1e-9 per run.',
-            'Magnitudes <= 1e37 so that max-min is finite in float32.'),
+            'Values up to 2^125 (max-min <= 2^126); beyond that two open findings of the uniform quantizer, excluded by construction and re-confirmed through witness replays.'),
     'C12': ('exploration',
             'Hypothesis-generated populations/hparams; differential between two fedjax algorithms and a float64 full-batch reference',
             'No counterexample for the six degenerate-hyper-parameter relations along multi-round histories.',
-            'rng-independent least-squares loss; fixed batching seed.'),
+            'Key-ignoring loss for the HypCluster(1) and APFL relations, also a key-dependent loss for FedProx(0), MimeLite and the Mime one-step clause; fixed batching seed.'),
     'C13': ('exploration',
             'Model-based generated histories of sample()/set_round_num() vs fresh-sampler memo table; streaming restart twin',
-            'No counterexample along generated round-request orders for both samplers over in-memory and SQLite datasets.',
+            'No counterexample along generated round-request orders for both samplers over in-memory, SQLite and subset-wrapped datasets, including restarts in new interpreter processes.',
             'Key distinctness judged on raw key data.'),
     'C14': ('exploration',
             'Hypothesis-generated constructor args and examples (ties, masks, extremes) vs independent numpy definitions and documented identities',
             'No counterexample for any built-in metric class against an independently written numpy/float64 definition.',
-            'CE logits finite; tolerance 1e-5 on CE, counts exact.'),
+            'Tolerance 1e-5 on cross entropy, counts exact; rows with -inf logits / spreads beyond the float32 range have a check of their own.'),
     'C15': ('exploration',
             'Hypothesis-generated client-size sequences/buffers/seeds vs concatenation model, multiset equality and replay equality',
-            'No counterexample among generated client-size sequences, buffer sizes, seeds and iterable kinds.',
+            'No counterexample among generated client-size sequences, buffer sizes, seeds and iterable kinds, including shuffled_clients of every FederatedData implementation.',
             'A trailing all-padding batch after empty clients is accepted (nothing lost or duplicated).'),
     'C16': ('exploration',
             'Hypothesis recursive generation of nested values x dtype x layout x byte order; round-trip equality; raises-or-equal on unsupported leaves',
@@ -78,11 +78,11 @@ TABLE = {
     'C18': ('exploration',
             'Hypothesis-generated (length, block) x vectors vs dense Sylvester matrix, involution, linearity; rotation norm/inverse/key oracles',
             'No counterexample over the reachable (length, block-size) grid and generated shapes/keys/trees.',
-            'Pairs needing >6 Kronecker factors excluded on XLA compile cost (listed in evidence).'),
+            'Pairs needing 7-8 Kronecker factors are executed op by op under jax.disable_jit() in the quick tier (XLA compile cost).'),
     'C19': ('fault_enumeration',
             'Exhaustive single-interruption enumeration per payload + Hypothesis multi-fault schedules; final-path absent-or-complete invariant',
             'Every single interruption point of download and decompression is enumerated per generated payload; multi-fault schedules sampled.',
-            'Faults injected underneath downloads.py (requests.get / open / lzma.open / os.rename wrappers).'),
+            'Faults injected underneath downloads.py (requests.get / open / lzma.open / os.rename wrappers), including OS-level short writes on a full disk and os._exit deaths in a forked child.'),
     'C20': ('exploration',
             'Hypothesis-generated snippets/images/ids/batches vs inverse tokenisation, TensorFlow twin, closed-form rule and C14 references with the dataset constants',
             'No counterexample for the packaged preprocessors and the dataset<->model agreement of label ids and vocabulary sizes.',
